@@ -47,7 +47,7 @@ def norm_name(s: str) -> str:
     return s
 
 
-def build_pool(world: World, cfg: dict | None, *, sync: bool):
+def build_pool(world: World, cfg: dict | None, *, sync: bool, ssl_context=None):
     cfg = dict(cfg or {})
     proxy = None
     p = cfg.get("proxy")
@@ -57,7 +57,7 @@ def build_pool(world: World, cfg: dict | None, *, sync: bool):
         pctx = FakeSSLContext("proxy-ctx") if str(p["url"]).startswith("https") else None
         proxy = httpcore.Proxy(url=p["url"], auth=auth, headers=headers, ssl_context=pctx)
     kw = dict(
-        ssl_context=FakeSSLContext("origin-ctx"),
+        ssl_context=ssl_context if ssl_context is not None else FakeSSLContext("origin-ctx"),
         proxy=proxy,
         max_connections=cfg.get("max_connections", 10),
         max_keepalive_connections=cfg.get("max_keepalive_connections", None),
@@ -110,6 +110,8 @@ def _extensions(spec):
 
 
 def _headers(spec):
+    if spec.get("_headers_obj") is not None:
+        return spec["_headers_obj"]  # the caller's own list object, passed through untouched (object identity matters)
     h = spec.get("headers")
     if h is None:
         return None
@@ -204,7 +206,12 @@ async def async_request(pool, spec: dict) -> dict:
         return _resp_outcome(resp, body, None)
     except HarnessHang as exc:
         return {"exc": {"type": "HANG", "name": "HANG", "documented": False, "msg": str(exc), "inner": None, "base": False}}
-    except (asyncio.CancelledError, GeneratorExit):
+    except asyncio.CancelledError as exc:
+        if exc.args and exc.args[0] == HANG_MSG:
+            return {"exc": {"type": "HANG", "name": "HANG", "documented": False, "msg": "the caller was blocked for ever with nothing else runnable "
+                            "(inline asyncio run)", "inner": exc_info(exc)["inner"], "base": False}}
+        raise
+    except GeneratorExit:
         raise
     except BaseException as exc:
         return {"exc": exc_info(exc)}
@@ -213,14 +220,133 @@ async def async_request(pool, spec: dict) -> dict:
 # ----------------------------------------------------------------------------- running coroutines inline
 
 _LOOP = None
+HANG_MSG = "vf-hang"
+
+
+class _InlineLoop(asyncio.SelectorEventLoop):
+    """Inline asyncio loop with a virtual clock: when nothing is ready the clock jumps to the earliest timer; when nothing is ready and no
+    timer exists the single caller is blocked for ever (a hang), which is reported instead of blocking in select()."""
+
+    def __init__(self):
+        super().__init__()
+        self._vnow = 1000.0
+
+    def time(self):
+        return self._vnow
 
 
 def run_async(coro):
-    """Run a coroutine to completion on a per-process asyncio loop (inline mode: nothing really blocks)."""
+    """Run a coroutine to completion on a per-process loop (inline mode: network ops never block, so a caller that waits for
+    something with nothing else runnable waits for ever)."""
     global _LOOP
     if _LOOP is None or _LOOP.is_closed():
-        _LOOP = asyncio.new_event_loop()
-    return _LOOP.run_until_complete(coro)
+        _LOOP = _InlineLoop()
+    import threading
+
+    loop = _LOOP
+    task = loop.create_task(coro)
+    hang_sent = 0
+    # the loop is stepped by hand (so that "nothing ready" can be seen before select() would block): mark it as the running loop
+    # exactly as run_forever() does, otherwise sniffio / anyio cannot find the current event loop
+    old_running = asyncio.events._get_running_loop()
+    asyncio.events._set_running_loop(loop)
+    loop._thread_id = threading.get_ident()
+    try:
+        while not task.done():
+            if not loop._ready:
+                timers = [h for h in loop._scheduled if not h._cancelled]
+                if timers:
+                    loop._vnow = max(loop._vnow, min(h._when for h in timers))
+                else:
+                    hang_sent += 1
+                    if hang_sent > 5:
+                        raise HarnessHang("inline asyncio caller is blocked for ever and does not react to cancellation")
+                    task.cancel(HANG_MSG)  # async_request() turns this into a HANG outcome; the scenario then continues
+            loop._run_once()
+    finally:
+        loop._thread_id = None
+        asyncio.events._set_running_loop(old_running)
+    return task.result()
+
+
+# ----------------------------------------------------------------------------- inline stand-ins for threading.* in the sync classes
+
+class _InlineThreading:
+    """Single-threaded inline runs: an operation that would block can never be unblocked by anybody, so it raises HarnessHang at once
+    (a timed Event.wait() returns False immediately: the timeout elapses with nobody to set the event). httpcore's own Lock / ThreadLock /
+    Event / Semaphore wrapper classes stay the real code; only the stdlib objects underneath are replaced."""
+
+    class Lock:
+        def __init__(self):
+            self._locked = False
+
+        def acquire(self, blocking=True, timeout=-1):
+            if self._locked:
+                if not blocking:
+                    return False
+                raise HarnessHang("single caller blocks on a lock that is already held (self-deadlock)")
+            self._locked = True
+            return True
+
+        def release(self):
+            self._locked = False
+
+        def locked(self):
+            return self._locked
+
+        __enter__ = acquire
+
+        def __exit__(self, *a):
+            self.release()
+
+    RLock = Lock
+
+    class Event:
+        def __init__(self):
+            self._flag = False
+
+        def set(self):
+            self._flag = True
+
+        def is_set(self):
+            return self._flag
+
+        def clear(self):
+            self._flag = False
+
+        def wait(self, timeout=None):
+            if self._flag:
+                return True
+            if timeout is None:
+                raise HarnessHang("single caller waits for an event nobody can set")
+            return False
+
+    class Semaphore:
+        def __init__(self, value=1):
+            self._value = value
+
+        def acquire(self, blocking=True, timeout=None):
+            if self._value <= 0:
+                if not blocking:
+                    return False
+                raise HarnessHang("single caller blocks on a semaphore with no permit left (self-deadlock)")
+            self._value -= 1
+            return True
+
+        def release(self, n=1):
+            self._value += n
+
+    current_thread = staticmethod(__import__("threading").current_thread)
+
+
+def install_inline_threading():
+    import httpcore._synchronization as sync_mod
+
+    if not isinstance(sync_mod.threading, _InlineThreading):
+        sync_mod.threading = _InlineThreading()
+
+
+install_inline_threading()
 
 
 def run_trio(fn, *args):
